@@ -84,19 +84,6 @@ Proof.
 Qed.
 
 (* ---- the executable model meets the same specification ---- *)
-Lemma xq_leb_total a b : xq_leb a b = false -> xq_leb b a = true.
-Proof.
-  destruct a as [p| | |], b as [q| | |]; cbn; try discriminate; try reflexivity.
-  intros H. apply Qle_bool_iff. destruct (Qlt_le_dec q p) as [Hlt|Hle].
-  - apply Qlt_le_weak, Hlt.
-  - apply Qle_bool_iff in Hle. congruence.
-Qed.
-Lemma xq_leb_trans a b c : xq_leb a b = true -> xq_leb b c = true -> xq_leb a c = true.
-Proof.
-  destruct a as [p| | |], b as [q| | |], c as [r| | |]; cbn; try discriminate; try reflexivity.
-  rewrite !Qle_bool_iff. apply Qle_trans.
-Qed.
-
 Lemma insert_t_perm o l : Permutation (insert_t o l) (o :: l).
 Proof.
   induction l as [|h r IH]; cbn; [reflexivity|].
